@@ -15,6 +15,7 @@ def run(tier, seed):
     fams = [
         ("mm", list(gen_match.match_matrix(rng, 2500 if quick else None)), 0 if quick else 1, 1, ("top", "fn0") if quick else None),
         ("ma", list(gen_match.match_alternatives(rng, 2500 if quick else None)), 0, 1, ("top", "fn0") if quick else None),
+        ("ap", list(gen_match.arg_pattern_matrix(rng, 1200 if quick else None)), 0, 1, ("top", "fn0")),
         ("mr", gen_match.match_random(rng, 400 if quick else 10000), 1, 3, None),
         ("un", list(gen_match.unpack_matrix()), 1, 2, ("top", "fn3")),
     ]
